@@ -226,10 +226,10 @@ func (net *Net) deliverFlight(f *Flight) {
 	switch pm := interfaces.ToConsensusMessage(f.Raw).(type) {
 	case *interfaces.PreprepareMessage:
 		v := uint64(pm.View())
-		n.CurProposalView = &v
+		n.CurProposalView, n.CurProposalHeight = &v, uint64(pm.BlockHeight())
 	case *interfaces.NewViewMessage:
 		v := uint64(pm.View())
-		n.CurProposalView = &v
+		n.CurProposalView, n.CurProposalHeight = &v, uint64(pm.BlockHeight())
 	}
 	net.event(n, "deliver "+enc, func() (string, string) { return n.Deliver(f.Raw) })
 	n.CurProposalView = nil
